@@ -1,19 +1,21 @@
 /-
-  C03 — Parser returns exactly the statements written, layout-insensitively.   (one statement: proved; programs: checked)
-  Proved for the model, for any single statement: the parse result is determined by the token values (`parse_of_lex`);
-  any text made of pieces that are lexed as the statement's tokens — mnemonics in any letter case, `R`/`r` registers with
-  leading zeros, literals as `n`, `#n`, `-n`, `xH`, … — separated by arbitrary runs of blanks and tabs (none needed
-  around commas), with blanks before and after, parses to exactly that statement (`layout_insensitive`); in particular
-  the canonical text `Display` writes does (`canonical_text`, C36).  Also: keyword recognition depends only on the
-  upper-cased spelling, `x`/`X` and `R`/`r` prefixes are interchangeable, blanks only shift spans, comments never reach
-  the parser and stop before the line end, error spans lie inside the text (C04).
-  Not proved: programs of several statements (line ends, CRLF, comments between statements, blank lines, colons after
-  labels, labels on their own lines) and the statement spans; these are what the correspondence check exercises
-  (generated statement lists, randomised layout, implementation = model = generated, two layouts per list).
+  C03 — Parser returns exactly the statements written, layout-insensitively.   (proved for the model, whole programs)
+  Proved for the model: the parse result is determined by the token values (`parse_of_lex`, `parseAll_prog`).  Any text made
+  of pieces that are lexed as the program's tokens — mnemonics in any letter case, `R`/`r` registers with leading zeros,
+  literals as `n`, `#n`, `-n`, `xH`, …, commas, colons, `\n` / `\r\n` line ends, `;` comments — separated by arbitrary runs
+  of blanks and tabs (none needed around commas and colons), parses to exactly the program's statements in order, whatever
+  the number of blank lines, comments, colons after labels, labels on lines of their own, and whether or not the last line is
+  ended (`program_layout_insensitive`; one statement: `layout_insensitive`); in particular the canonical text `Display`
+  writes does (`canonical_text`, C36).  Also: keyword recognition depends only on the upper-cased spelling, `x`/`X` and
+  `R`/`r` prefixes are interchangeable, blanks only shift spans, comments never reach the parser and stop before the line
+  end, error spans lie inside the text (C04).
+  Not proved: the statement spans (`Stmt.span`) and label start offsets; string literals and labels beyond the well-behaved
+  spellings of `StmtOk`/`labelOk`.  The correspondence check exercises these (generated statement lists, randomised layout,
+  implementation = model = generated, two layouts per list).
 -/
 import Lc3V.Lemmas.ParseSpan
 import Lc3V.Lemmas.LexTok
-import Lc3V.Lemmas.Layout
+import Lc3V.Lemmas.ProgramLayout
 set_option linter.unusedSimpArgs false
 namespace Lc3V.C03
 open Lc3V
@@ -112,44 +114,104 @@ theorem result_determined_by_tokens (s : Stmt) (text : List Char) (ts : List SpT
   parse_of_lex s text ts hlex hvals hcc hb
 
 /-- layout insensitivity for one statement: any spelling of the tokens, any blanks and tabs around them -/
-theorem layout_insensitive (s : Stmt) (lead : List Char) (hlead : IsGap lead) (as : List (Atom × List Char)) (hseq : GapSeqOk as)
+theorem layout_insensitive (s : Stmt) (lead : List Char) (hlead : IsGap lead) (as : List (LAtom × List Char)) (hseq : LSeqOk as)
     (hok : ∀ a ∈ as, a.1.Ok ∧ IsGap a.2) (hvals : as.map (·.1.tok) = labelToks s.labels ++ kindToks s.nucleus)
     (hcc : ∀ cc o, s.nucleus = .instr (.br cc o) → cc ≠ 0) (hb : ∀ n, s.nucleus = .directive (.blkw n) → n ≠ 0) :
-    ∃ s', parseAst (lead ++ renderGaps as) = .ok [s'] ∧ s'.labels.map (·.name) = s.labels.map (·.name) ∧ s'.nucleus.erase = s.nucleus.erase :=
+    ∃ s', parseAst (lead ++ renderL as) = .ok [s'] ∧ s'.labels.map (·.name) = s.labels.map (·.name) ∧ s'.nucleus.erase = s.nucleus.erase :=
   parse_layout s lead hlead as hseq hok hvals hcc hb
+
+/-- **layout insensitivity for a whole program**: the text is any sequence of well-behaved pieces (words in any accepted
+    spelling, commas, colons, `\n` or `\r\n` line ends, comments) with arbitrary blanks and tabs around them.  If its tokens
+    other than comments are those of the program `ss` — each statement's labels (with or without a colon, on the same line or on
+    lines of their own), its mnemonic or directive and operands, and then at least one line end or the end of the text, with
+    `pre` blank lines in front — the parser returns exactly the statements of `ss`, in order (labels by name, operands up to the
+    source positions recorded inside label operands).  Comments, blank lines, CRLF and the amount of white space therefore have
+    no influence on the result. -/
+theorem program_layout_insensitive (ss : List StmtL) (pre : Nat) (lead : List Char) (hlead : IsGap lead)
+    (as : List (LAtom × List Char)) (hseq : LSeqOk as) (hok : ∀ a ∈ as, a.1.Ok ∧ IsGap a.2)
+    (hvals : (as.map (·.1.tok)).filter (fun t => t != .comment) = nls pre ++ progToks ss)
+    (hpost : PostOk ss) (hss : ∀ x ∈ ss, x.Ok) :
+    ∃ got, parseAst (lead ++ renderL as) = .ok got ∧
+      got.map (fun s => (s.labels.map (·.name), s.nucleus.erase)) = ss.map (fun x => (x.labels.map (·.label.name), x.kind.erase)) :=
+  parse_program ss pre lead hlead as hseq hok hvals hpost hss
 
 /-- the canonical text parses to the statement -/
 theorem canonical_text (s : Stmt) (h : StmtOk s) :
     ∃ s', parseAst (showStmt s) = .ok [s'] ∧ s'.labels.map (·.name) = s.labels.map (·.name) ∧ s'.nucleus.erase = s.nucleus.erase :=
   parse_print s h
 
+theorem gap_nil : IsGap [] := by intro c hc; cases hc
+theorem gap_sp : IsGap [' '] := by intro c hc; simp at hc; exact Or.inl hc
+theorem gap_sp2 : IsGap [' ', ' '] := by intro c hc; simp at hc; exact Or.inl hc
+theorem gap_tab : IsGap ['\t'] := by intro c hc; simp at hc; exact Or.inr hc
+
 /-- the premises of `layout_insensitive` are met by a non-canonical layout: ` aDd\tr1 ,R02,  -3 ` for `ADD R1, R2, #-3` -/
-example : ∃ s', parseAst ([' '] ++ renderGaps
-      [(kwAtomS ['a', 'D', 'd'] .ADD, ['\t']), (regAtomS 'r' ['1'] 1, [' ']), (commaAtom, []), (regAtomS 'R' ['0', '2'] 2, []),
-       (commaAtom, [' ', ' ']), (negAtomS ['3'] 3, [' '])]) = .ok [s'] ∧
+example : ∃ s', parseAst ([' '] ++ renderL
+      [(ofAtom (kwAtomS ['a', 'D', 'd'] .ADD), ['\t']), (ofAtom (regAtomS 'r' ['1'] 1), [' ']), (commaL, []),
+       (ofAtom (regAtomS 'R' ['0', '2'] 2), []), (commaL, [' ', ' ']), (ofAtom (negAtomS ['3'] 3), [' '])]) = .ok [s'] ∧
     s'.labels.map (·.name) = [] ∧ s'.nucleus.erase = StmtKind.erase (.instr (.add 1 2 (.imm (-3)))) := by
   apply parse_layout ⟨[], .instr (.add 1 2 (.imm (-3))), (0, 0)⟩
-  · intro c hc; simp at hc; exact Or.inl hc
-  · exact ⟨Or.inl (by decide), Or.inl (by decide), Or.inr (Or.inr ⟨rfl, rfl⟩), Or.inr (Or.inl ⟨[], rfl⟩), Or.inl (by decide), trivial⟩
+  · exact gap_sp
+  · exact ⟨Or.inr ⟨'\t', _, rfl, by decide⟩, Or.inr ⟨' ', _, rfl, by decide⟩, trivial, Or.inr ⟨',', _, rfl, by decide⟩, trivial,
+      Or.inr ⟨' ', _, rfl, by decide⟩, trivial⟩
   · intro a ha
     simp only [List.mem_cons, List.mem_nil_iff, or_false] at ha
     rcases ha with rfl | rfl | rfl | rfl | rfl | rfl
-    · exact ⟨kwAtomS_ok _ _ (by decide), by intro c hc; simp at hc; exact Or.inr hc⟩
+    · exact ⟨kwAtomS_ok _ _ (by decide), gap_tab⟩
     · exact ⟨regAtomS_ok 'r' ['1'] 1 (Or.inr rfl) (by simp) (by intro c hc; simp at hc; subst hc; exact ⟨by decide, by decide⟩) (by decide) (by omega),
-        by intro c hc; simp at hc; exact Or.inl hc⟩
-    · exact ⟨commaAtom_ok, by intro c hc; cases hc⟩
+        gap_sp⟩
+    · exact ⟨commaL_ok, gap_nil⟩
     · exact ⟨regAtomS_ok 'R' ['0', '2'] 2 (Or.inl rfl) (by simp) (by intro c hc; simp at hc; rcases hc with rfl | rfl <;> exact ⟨by decide, by decide⟩) (by decide) (by omega),
-        by intro c hc; cases hc⟩
-    · exact ⟨commaAtom_ok, by intro c hc; simp at hc; exact Or.inl hc⟩
+        gap_nil⟩
+    · exact ⟨commaL_ok, gap_sp2⟩
     · exact ⟨negAtomS_ok ['3'] 3 (by simp) (by intro c hc; simp at hc; subst hc; exact ⟨by decide, by decide⟩) (by decide) (by omega),
-        by intro c hc; simp at hc; exact Or.inl hc⟩
+        gap_sp⟩
   · decide
   · intro cc o h; cases h
   · intro n h; cases h
 
+/-- the premises of `program_layout_insensitive` are met by a two-statement program with a comment line, a CRLF, a label with a
+    colon on a line of its own, a trailing comment, a blank line and no line end after the last statement:
+    `; c␍␊L:␍␊ not r1 ,R2 ;x␊␊halt` (the `␍` of the first line belongs to the comment) -/
+example : ∃ got, parseAst ([] ++ renderL
+      [(commentL [' ', 'c', '\r'], []), (nlL, []), (ofAtom (labelAtom ['L'] false), []), (colonL, []), (crlfL, [' ']),
+       (ofAtom (kwAtomS ['n', 'o', 't'] .NOT), [' ']), (ofAtom (regAtomS 'r' ['1'] 1), [' ']), (commaL, []),
+       (ofAtom (regAtomS 'R' ['2'] 2), [' ']), (commentL ['x'], []), (nlL, []), (nlL, []),
+       (ofAtom (kwAtomS ['h', 'a', 'l', 't'] .HALT), [])]) = .ok got ∧
+    got.map (fun s => (s.labels.map (·.name), s.nucleus.erase)) =
+      [([['L']], StmtKind.erase (.instr (.not 1 2))), ([], StmtKind.erase (.instr .halt))] := by
+  apply parse_program [⟨[⟨⟨['L'], 0⟩, true, 1⟩], .instr (.not 1 2), 2⟩, ⟨[], .instr .halt, 0⟩] 1
+  · exact gap_nil
+  · exact ⟨Or.inr ⟨_, rfl⟩, trivial, Or.inr ⟨':', _, rfl, by decide⟩, trivial, trivial, Or.inr ⟨' ', _, rfl, by decide⟩,
+      Or.inr ⟨' ', _, rfl, by decide⟩, trivial, Or.inr ⟨' ', _, rfl, by decide⟩, Or.inr ⟨_, rfl⟩, trivial, trivial, Or.inl rfl, trivial⟩
+  · intro a ha
+    simp only [List.mem_cons, List.mem_nil_iff, or_false] at ha
+    have hd : ∀ c, c ∈ ['1'] → IsDec c := by intro c hc; simp at hc; subst hc; exact ⟨by decide, by decide⟩
+    have hd2 : ∀ c, c ∈ ['2'] → IsDec c := by intro c hc; simp at hc; subst hc; exact ⟨by decide, by decide⟩
+    rcases ha with rfl | rfl | rfl | rfl | rfl | rfl | rfl | rfl | rfl | rfl | rfl | rfl | rfl
+    · exact ⟨commentL_ok _ (by decide), gap_nil⟩
+    · exact ⟨nlL_ok, gap_nil⟩
+    · exact ⟨labelAtom_ok _ (by decide) false, gap_nil⟩
+    · exact ⟨colonL_ok, gap_nil⟩
+    · exact ⟨crlfL_ok, gap_sp⟩
+    · exact ⟨kwAtomS_ok _ _ (by decide), gap_sp⟩
+    · exact ⟨regAtomS_ok 'r' ['1'] 1 (Or.inr rfl) (by simp) hd (by decide) (by omega), gap_sp⟩
+    · exact ⟨commaL_ok, gap_nil⟩
+    · exact ⟨regAtomS_ok 'R' ['2'] 2 (Or.inl rfl) (by simp) hd2 (by decide) (by omega), gap_sp⟩
+    · exact ⟨commentL_ok _ (by decide), gap_nil⟩
+    · exact ⟨nlL_ok, gap_nil⟩
+    · exact ⟨nlL_ok, gap_nil⟩
+    · exact ⟨kwAtomS_ok _ _ (by decide), gap_nil⟩
+  · decide
+  · exact ⟨by decide, trivial⟩
+  · intro x hx
+    simp only [List.mem_cons, List.mem_nil_iff, or_false] at hx
+    rcases hx with rfl | rfl <;> exact ⟨(by intro cc o h; cases h), (by intro n h; cases h)⟩
+
 def obligations : List Lean.Name :=
   [``keyword_case_insensitive, ``prefix_case_irrelevant, ``lexAll_shift, ``leading_blank, ``comments_dropped, ``comment_token,
-   ``spans_inside, ``result_determined_by_tokens, ``layout_insensitive, ``canonical_text, ``Lc3V.lex_gaps, ``Lc3V.kwAtomS_ok,
-   ``Lc3V.regAtomS_ok, ``Lc3V.decAtomS_ok, ``Lc3V.negAtomS_ok]
+   ``spans_inside, ``result_determined_by_tokens, ``layout_insensitive, ``program_layout_insensitive, ``canonical_text,
+   ``Lc3V.lex_L, ``Lc3V.parseAll_prog, ``Lc3V.kwAtomS_ok, ``Lc3V.regAtomS_ok, ``Lc3V.decAtomS_ok, ``Lc3V.negAtomS_ok,
+   ``Lc3V.commentL_ok, ``Lc3V.crlfL_ok]
 
 end Lc3V.C03
